@@ -1,6 +1,8 @@
 import Model
 import Proofs.SchedInv
 import Proofs.WFCheck
+import Proofs.Aligned
+import Proofs.WFCheck
 /-!
 C02 — work is booked only inside the resource's working time.
 
@@ -75,5 +77,32 @@ theorem cross_midnight (s e m : Int) (d wd : Int) (hes : e ≤ s) (hd : 0 ≤ d 
 /-- non-vacuity: Monday 22:00–06:00 covers Monday 23:00 and Tuesday 05:00, not Monday 05:00 -/
 example : let h : Hours := { days := [[(1320, 360)], [], [], [], [], [], []] }
     h.on 0 1380 = true ∧ h.on 1 300 = true ∧ h.on 0 300 = false := by decide
+
+/-! ### every second, for aligned calendars -/
+
+/-- (b4) with calendars aligned to the scheduling grid (resolution divides an hour; project start, every leave /
+    vacation / booking / holiday boundary, every working-hours boundary, every zone offset and zone transition on the
+    grid) the working-time decision is the same for every instant of a slot -/
+theorem aligned_slot_is_uniform (c : CalEnv) (rc : ResCal) (ha : CalAligned c rc) (i δ : Int) (h0 : 0 ≤ δ) (h1 : δ < c.G) :
+    workingAt c rc (c.time i + δ) = workingAt c rc (c.time i) := slot_uniform c rc ha i δ h0 h1
+
+/-- **C02 for whole projects, every second**: after scheduling ANY well-formed project description, a slot of a resource
+    that carries a booking is working time of that resource — own hours / shift hours evaluated in the resource's time
+    zone (table incl. DST transitions), outside every leave, vacation, blocking booking and global holiday — at EVERY
+    one of its seconds, provided the resource's calendar is aligned with the grid (`calAlignedB`, decidable; the
+    complement is the open finding F6) -/
+theorem booked_every_second (p : RawProj) (h : wfCheck (elaborate p).env = true) (r : Nat) (i : Int)
+    (hb : ((runScenario (elaborate p).env).led.get r i).usage ≠ [])
+    (hal : calAlignedB (elaborate p).cal ((elaborate p).rcal.getD r {}) = true)
+    (δ : Int) (h0 : 0 ≤ δ) (h1 : δ < p.G) :
+    workingAt (elaborate p).cal ((elaborate p).rcal.getD r {}) ((elaborate p).cal.time i + δ) = true := by
+  have hon := (booked_onShift (elaborate p).env (wfCheck_sound _ h) r i hb).1
+  exact onShift_every_second (elaborate p).cal _ (calAlignedB_sound _ _ hal) i hon δ h0 h1
+
+/-- non-vacuity: a resource in a zone with a whole-hour DST transition, own hours 08:00–12:00 / 13:00–17:00 and a one-day
+    leave is aligned with the one-hour grid -/
+example : calAlignedB { start := 1741564800, G := 3600, size := 400, gvac := [], gleaves := [(1742169600, 1742256000)] }
+    { zone := some [(0, 3600), (1743296400, 7200)], hours := some { days := [[(480, 720), (780, 1020)], [], [], [], [], [], []] },
+      leaves := [(1741651200, 1741737600)] } = true := by decide +kernel
 
 end SP.C02
